@@ -2,10 +2,25 @@ package main
 
 import (
 	"cmp"
+	"fmt"
 	"math"
 	"slices"
+	"strings"
+	"time"
+
+	"github.com/emirpasic/gods/v2/containers"
+	"github.com/emirpasic/gods/v2/maps"
+	"github.com/emirpasic/gods/v2/utils"
 
 	"github.com/emirpasic/gods/v2/maps/treebidimap"
+	"github.com/emirpasic/gods/v2/queues/arrayqueue"
+	"github.com/emirpasic/gods/v2/queues/circularbuffer"
+	"github.com/emirpasic/gods/v2/queues/linkedlistqueue"
+	"github.com/emirpasic/gods/v2/sets"
+	"github.com/emirpasic/gods/v2/sets/hashset"
+	"github.com/emirpasic/gods/v2/sets/linkedhashset"
+	"github.com/emirpasic/gods/v2/stacks/arraystack"
+	"github.com/emirpasic/gods/v2/stacks/linkedliststack"
 	"github.com/emirpasic/gods/v2/maps/treemap"
 	"github.com/emirpasic/gods/v2/queues/priorityqueue"
 	"github.com/emirpasic/gods/v2/sets/treeset"
@@ -168,4 +183,365 @@ func typedCtorProbe(o *Oracle, prop, kind string, salt int) {
 	typedCtorOne(o, prop, kind, "int8", i8)
 	typedCtorOne(o, prop, kind, "uint16", u16)
 	typedCtorOne(o, prop, kind, "named string", tg)
+}
+
+// ---- time.Time keys with the library's own comparator -------------------------------------------------
+
+// utils.TimeComparator is the one comparator the library ships. The ordered containers built with it over
+// time.Time keys are replayed on a derived insertion/removal sequence and compared with a reference keyed by
+// the instant (Before/After/Equal): the same instant in two locations is one key, instants 2^64 ns apart
+// and dates outside 1678..2262 (where UnixNano wraps) are different keys in chronological order.
+func timePool() []time.Time {
+	cet := time.FixedZone("CET", 3600)
+	base := time.Date(2000, 1, 1, 0, 0, 0, 0, time.UTC)
+	wrap := time.Duration(1<<63 - 1)
+	far := base.Add(wrap).Add(wrap).Add(2) // base + 2^64 ns
+	return []time.Time{
+		base, base.In(cet), base.Add(time.Nanosecond), base.Add(-time.Nanosecond), far, far.In(cet),
+		{}, time.Time{}.Add(wrap).Add(wrap).Add(2), time.Date(1600, 3, 1, 0, 0, 0, 0, time.UTC), time.Date(2300, 1, 1, 0, 0, 0, 0, cet),
+		time.Date(9999, 12, 31, 23, 59, 59, 999999999, time.UTC), time.Date(1970, 1, 1, 0, 0, 0, 0, time.UTC), time.Date(1970, 1, 1, 1, 0, 0, 0, cet),
+		time.Date(2024, 2, 29, 12, 0, 0, 0, time.UTC), time.Date(1677, 9, 21, 0, 12, 43, 145224191, time.UTC), time.Date(2262, 4, 11, 23, 47, 16, 854775808, time.UTC),
+	}
+}
+
+func timeRef(a, b time.Time) int {
+	switch {
+	case a.Before(b):
+		return -1
+	case a.After(b):
+		return 1
+	}
+	return 0
+}
+
+func timeKeysProbe(o *Oracle, prop, kind string, salt int) {
+	pool := timePool()
+	type ent struct {
+		k time.Time
+		v int
+	}
+	var ref []ent // sorted by instant
+	put := func(k time.Time, v int) {
+		i, found := slices.BinarySearchFunc(ref, k, func(e ent, t time.Time) int { return timeRef(e.k, t) })
+		if found {
+			ref[i].v = v
+		} else {
+			ref = slices.Insert(ref, i, ent{k, v})
+		}
+	}
+	del := func(k time.Time) {
+		if i, found := slices.BinarySearchFunc(ref, k, func(e ent, t time.Time) int { return timeRef(e.k, t) }); found {
+			ref = slices.Delete(ref, i, i+1)
+		}
+	}
+	var m maps.Map[time.Time, int]
+	var set *treeset.Set[time.Time]
+	switch kind {
+	case "treemap":
+		m = treemap.NewWith[time.Time, int](utils.TimeComparator)
+	case "redblacktree":
+		m = redblacktree.NewWith[time.Time, int](utils.TimeComparator)
+	case "avltree":
+		m = avltree.NewWith[time.Time, int](utils.TimeComparator)
+	case "btree":
+		m = btree.NewWith[time.Time, int](3+salt%3, utils.TimeComparator)
+	case "treebidimap":
+		m = treebidimap.NewWith[time.Time, int](utils.TimeComparator, cmp.Compare[int])
+	case "treeset":
+		set = treeset.NewWith[time.Time](utils.TimeComparator)
+	default:
+		return
+	}
+	n := 8 + derive(salt, 1, 16)
+	var hist []string
+	for step := 0; step < n && !o.Failed(); step++ {
+		k := pool[derive(salt, 10+step, len(pool))]
+		remove := derive(salt, 100+step, 4) == 0
+		if remove {
+			hist = append(hist, "Remove("+k.Format(time.RFC3339Nano)+")")
+			del(k)
+			if set != nil {
+				set.Remove(k)
+			} else {
+				m.Remove(k)
+			}
+		} else {
+			hist = append(hist, "Put("+k.Format(time.RFC3339Nano)+")")
+			put(k, step)
+			if set != nil {
+				set.Add(k)
+			} else {
+				m.Put(k, step) // (values are unique per step, so the bidirectional map evicts nothing else)
+			}
+		}
+		var keys []time.Time
+		if set != nil {
+			keys = set.Values()
+		} else {
+			keys = m.Keys()
+		}
+		ok := len(keys) == len(ref)
+		for i := 0; ok && i < len(keys); i++ {
+			ok = keys[i].Equal(ref[i].k)
+		}
+		if !ok {
+			o.Fail(prop, "time-keys", "%s ordered by utils.TimeComparator after %v: keys %v, want the instants %v in chronological order", kind, hist, keys, mapS(ref, func(e ent) string { return e.k.UTC().Format(time.RFC3339Nano) }))
+			return
+		}
+		for _, p := range pool {
+			i, want := slices.BinarySearchFunc(ref, p, func(e ent, t time.Time) int { return timeRef(e.k, t) })
+			var got bool
+			gv := 0
+			if set != nil {
+				got = set.Contains(p)
+			} else {
+				gv, got = m.Get(p)
+			}
+			if got != want || (got && set == nil && gv != ref[i].v) {
+				o.Fail(prop, "time-keys", "%s ordered by utils.TimeComparator after %v: lookup of %s gives (%d,%v), reference present=%v", kind, hist, p.Format(time.RFC3339Nano), gv, got, want)
+				return
+			}
+		}
+	}
+}
+
+// ---- pointer elements with a comparator that dereferences ---------------------------------------------------
+
+// A comparator is a strict weak order over the elements the caller stores; it need not accept anything
+// else. With pointer elements ordered by a field of the pointee, a library that hands the comparator a
+// value that was never stored (the zero value of T: nil) makes a documented call panic. The probe runs a
+// derived script on the comparator-using kinds over *Item and reports such a call.
+type foreignArg struct{}
+
+func derefCmp(a, b *Item) int {
+	if a == nil || b == nil {
+		panic(foreignArg{})
+	}
+	return cmp.Compare(a.P, b.P)
+}
+
+func pointerElementsProbe(o *Oracle, prop, kind string, salt int) {
+	pool := make([]*Item, 12)
+	for i := range pool {
+		pool[i] = &Item{P: i/2 - 2, ID: i} // pairs that compare equal but are different pointers
+	}
+	pick := func(i int) *Item { return pool[derive(salt, i, len(pool))] }
+	step := 0
+	call := func(what string, f func()) bool {
+		if o.Failed() {
+			return false
+		}
+		ok := true
+		func() {
+			defer func() {
+				if r := recover(); r != nil {
+					if _, isForeign := r.(foreignArg); !isForeign {
+						// any other panic: attributed like everywhere else (library frame first => violation)
+						if _, isNT := r.(nonTermination); isNT {
+							panic(r)
+						}
+						origin, frames := panicOrigin()
+						if origin != "gods" {
+							panic(r)
+						}
+						ok = false
+						o.Fail(prop, "panic", "%s over pointer elements: %s (step %d) panicked: %v\n%s", kind, what, step, r, strings.Join(frames, "\n"))
+						return
+					}
+					ok = false
+					o.Fail(prop, "comparator-called-with-non-element", "%s over pointer elements: %s (step %d) called the comparator with nil, which was never stored: a comparator that reads its arguments panics", kind, what, step)
+				}
+			}()
+			f()
+		}()
+		step++
+		return ok
+	}
+	n := 6 + derive(salt, 1, 10)
+	switch kind {
+	case "treeset":
+		a, b := treeset.NewWith[*Item](derefCmp), treeset.NewWith[*Item](derefCmp)
+		alg := func(tag string) {
+			for _, x := range [][2]*treeset.Set[*Item]{{a, b}, {b, a}, {a, a}} {
+				x := x
+				call("Intersection "+tag, func() { x[0].Intersection(x[1]).Add(pick(900)) })
+				call("Union "+tag, func() { x[0].Union(x[1]).Add(pick(901)) })
+				call("Difference "+tag, func() { x[0].Difference(x[1]).Add(pick(902)) })
+			}
+		}
+		alg("of two empty sets")
+		for i := 0; i < n; i++ {
+			i := i
+			call("Add", func() { a.Add(pick(10+i), pick(40+i)) })
+			if i%3 == 0 {
+				alg("with an empty argument")
+			}
+			if i%4 == 3 {
+				call("Add", func() { b.Add(pick(70 + i)) })
+				alg("of non-empty sets")
+				call("Clear", func() { b.Clear() })
+				alg("with a cleared argument")
+			}
+			call("Remove/Contains", func() { a.Remove(pick(100 + i)); a.Contains(pick(130+i), pick(160+i)) })
+		}
+		call("Values/String", func() { a.Values(); _ = a.String(); a.Select(func(int, *Item) bool { return true }) })
+	case "treemap", "redblacktree", "avltree", "btree", "treebidimap":
+		var m maps.Map[*Item, int]
+		switch kind {
+		case "treemap":
+			m = treemap.NewWith[*Item, int](derefCmp)
+		case "redblacktree":
+			m = redblacktree.NewWith[*Item, int](derefCmp)
+		case "avltree":
+			m = avltree.NewWith[*Item, int](derefCmp)
+		case "btree":
+			m = btree.NewWith[*Item, int](3+salt%4, derefCmp)
+		default:
+			m = treebidimap.NewWith[*Item, int](derefCmp, cmp.Compare[int])
+		}
+		call("Get/Remove on the empty container", func() { m.Get(pick(1)); m.Remove(pick(2)); m.Keys(); m.Values() })
+		for i := 0; i < n; i++ {
+			i := i
+			call("Put", func() { m.Put(pick(10+i), i) })
+			call("Get", func() { m.Get(pick(40 + i)) })
+			if i%3 == 2 {
+				call("Remove", func() { m.Remove(pick(70 + i)) })
+			}
+			if i == n/2 {
+				call("Clear", func() { m.Clear(); m.Get(pick(3)); m.Remove(pick(4)) })
+			}
+		}
+		call("Keys/Values/String", func() { m.Keys(); m.Values(); _ = m.(fmt.Stringer).String() })
+		if nav, ok := m.(interface {
+			Floor(*Item) (*Item, int, bool)
+			Ceiling(*Item) (*Item, int, bool)
+		}); ok {
+			call("Floor/Ceiling", func() { nav.Floor(pick(5)); nav.Ceiling(pick(6)) })
+		}
+	case "binaryheap", "priorityqueue":
+		var push func(...*Item)
+		var pop func() (*Item, bool)
+		var c containers.Container[*Item]
+		if kind == "binaryheap" {
+			h := binaryheap.NewWith[*Item](derefCmp)
+			push, pop, c = h.Push, h.Pop, h
+		} else {
+			q := priorityqueue.NewWith[*Item](derefCmp)
+			push = func(vs ...*Item) {
+				for _, v := range vs {
+					q.Enqueue(v)
+				}
+			}
+			pop, c = q.Dequeue, q
+		}
+		call("Pop on the empty heap", func() { pop(); c.Values() })
+		for i := 0; i < n; i++ {
+			i := i
+			if i%3 == 0 {
+				call("bulk Push", func() { push(pick(10+i), pick(40+i), pick(70+i)) })
+			} else {
+				call("Push", func() { push(pick(10 + i)) })
+			}
+			if i%2 == 1 {
+				call("Pop", func() { pop() })
+			}
+			call("Values/String", func() { c.Values(); _ = c.String() })
+		}
+		for i := 0; i < 3*n && !c.Empty(); i++ {
+			call("Pop (draining)", func() { pop() })
+		}
+		call("Pop on the drained heap", func() { pop(); push(pick(200)); pop() })
+	}
+}
+
+// ---- zero-size element types -----------------------------------------------------------------------------
+
+// struct{} (and [0]int) are comparable element types of size zero: all values are equal, sequences still
+// have lengths. The probe runs the sequence containers and sets over struct{}.
+func zeroSizeProbe(o *Oracle, prop, kind string) {
+	type E = struct{}
+	fail := func(what string, got, want any) {
+		o.Fail(prop, "zero-size-elements", "%s over struct{} elements: %s = %v, want %v", kind, what, got, want)
+	}
+	eq := func(what string, got, want any) bool {
+		if !o.Failed() && fmt.Sprint(got) != fmt.Sprint(want) {
+			fail(what, got, want)
+		}
+		return !o.Failed()
+	}
+	switch familyOf(kind) {
+	case "list":
+		l := makeList[E](kind)
+		l.Add(E{}, E{}, E{})
+		l.Insert(1, E{})
+		eq("Size after Add x3, Insert", l.Size(), 4)
+		eq("len(Values())", len(l.Values()), 4)
+		eq("Contains", l.Contains(E{}, E{}), true)
+		eq("IndexOf", l.(indexOfer[E]).IndexOf(E{}), 0)
+		l.Remove(3)
+		l.Remove(0)
+		_, ok := l.Get(1)
+		eq("Get(1) after two removals", ok, true)
+		_, ok = l.Get(2)
+		eq("Get(2) after two removals", ok, false)
+		l.Clear()
+		eq("Size after Clear", l.Size(), 0)
+		eq("Contains on empty", l.Contains(E{}), false)
+	case "set":
+		var s sets.Set[E]
+		switch kind {
+		case "hashset":
+			s = hashset.New[E]()
+		case "linkedhashset":
+			s = linkedhashset.New[E]()
+		default:
+			return
+		}
+		s.Add(E{}, E{})
+		s.Add(E{})
+		eq("Size after three Adds", s.Size(), 1)
+		eq("len(Values())", len(s.Values()), 1)
+		eq("Contains", s.Contains(E{}), true)
+		s.Remove(E{})
+		eq("Size after Remove", s.Size(), 0)
+		eq("Contains after Remove", s.Contains(E{}), false)
+	case "sq":
+		var put func(E)
+		var take func() (E, bool)
+		var c containers.Container[E]
+		switch kind {
+		case "arraystack":
+			x := arraystack.New[E]()
+			put, take, c = x.Push, x.Pop, x
+		case "linkedliststack":
+			x := linkedliststack.New[E]()
+			put, take, c = x.Push, x.Pop, x
+		case "arrayqueue":
+			x := arrayqueue.New[E]()
+			put, take, c = x.Enqueue, x.Dequeue, x
+		case "linkedlistqueue":
+			x := linkedlistqueue.New[E]()
+			put, take, c = x.Enqueue, x.Dequeue, x
+		case "circularbuffer":
+			x := circularbuffer.New[E](3)
+			put, take, c = x.Enqueue, x.Dequeue, x
+		}
+		for i := 0; i < 5; i++ {
+			put(E{})
+		}
+		want := 5
+		if kind == "circularbuffer" {
+			want = 3
+		}
+		eq("Size after five insertions", c.Size(), want)
+		eq("len(Values())", len(c.Values()), want)
+		_, ok := take()
+		eq("first removal ok", ok, true)
+		for i := 0; i < 6; i++ {
+			take()
+		}
+		_, ok = take()
+		eq("removal from the drained container ok", ok, false)
+		eq("Size after draining", c.Size(), 0)
+	}
 }
